@@ -1,3 +1,52 @@
-From DI Require Import PyStr Version.
-Theorem C01_placeholder : True. Proof. exact I. Qed.
-Print Assumptions C01_placeholder.
+(* C01 - Version ordering is exactly dpkg's ordering. *)
+From Coq Require Import String.
+From Coq Require Import NArith ZArith List Bool.
+From DI Require Import Result PyStr Version Dpkg Policy OrderFacts VersionFacts ParseFacts VersionOrder.
+Import ListNotations.
+Open Scope Z_scope.
+
+(* single components: alternating non-digit runs (tilde < end < letters < others)
+   and digit runs by numeric value, i.e. the key order of Spec/Dpkg.v *)
+Theorem C01_compare_strings_is_key_order : forall x y, allowed x -> allowed y ->
+  compare_strings x y = Ok (Z_of_cmp (cmp_key (key x) (key y))).
+Proof. exact compare_strings_key. Qed.
+Print Assumptions C01_compare_strings_is_key_order.
+
+Theorem C01_fuel_sufficient : forall fuel x y, allowed x -> allowed y ->
+  (length x + length y <= fuel)%nat ->
+  compare_strings_fuel fuel x y = compare_strings x y.
+Proof.
+  intros fuel x y Ax Ay Hl. rewrite (compare_strings_key x y Ax Ay).
+  now apply compare_strings_fuel_key.
+Qed.
+Print Assumptions C01_fuel_sufficient.
+
+(* whole versions: epochs numerically, then upstream, then revision *)
+Theorem C01_compare_versions_is_key_order : forall a b va vb,
+  from_string a = Ok va -> from_string b = Ok vb ->
+  compare_versions a b = Ok (Z_of_cmp (vcmp va vb)).
+Proof. exact compare_versions_vcmp. Qed.
+Print Assumptions C01_compare_versions_is_key_order.
+
+(* never an error on valid versions *)
+Theorem C01_no_error_on_valid : forall a b va vb,
+  from_string a = Ok va -> from_string b = Ok vb -> exists r, compare_versions a b = Ok r.
+Proof. intros a b va vb Ha Hb. eexists. exact (compare_versions_vcmp a b va vb Ha Hb). Qed.
+Print Assumptions C01_no_error_on_valid.
+
+(* a missing epoch counts as 0 and a missing revision as "0" *)
+Theorem C01_missing_parts : forall s v,
+  from_string s = Ok v -> (epoch v, upstream v, revision v) = policy_triple (strip s).
+Proof. exact decomposition. Qed.
+Print Assumptions C01_missing_parts.
+
+Example C01_tilde_before_end : compare_versions (lit "1.0~rc1") (lit "1.0") = Ok (-1).
+Proof. vm_compute. reflexivity. Qed.
+Example C01_end_before_letters : compare_versions (lit "1.0") (lit "1.0a") = Ok (-1).
+Proof. vm_compute. reflexivity. Qed.
+Example C01_letters_before_punct : compare_versions (lit "1.0z") (lit "1.0+1") = Ok (-1).
+Proof. vm_compute. reflexivity. Qed.
+Example C01_digit_runs_numeric : compare_versions (lit "1.007") (lit "1.7") = Ok 0.
+Proof. vm_compute. reflexivity. Qed.
+Example C01_missing_revision_is_0 : compare_versions (lit "1") (lit "0:1-0") = Ok 0.
+Proof. vm_compute. reflexivity. Qed.
